@@ -152,6 +152,10 @@ def _ts_answer(spec, k, polls, states=None):
     raise ValueError(kind)
 
 
+import numpy as _np
+VEC0 = _np.zeros(2, dtype=int)
+
+
 class Ledger(Process):
     """Workload process. parameters:
       pid, ts (timestep spec), cond (None | 'flag' | 'never' | {'seq': [...]}),
@@ -178,6 +182,10 @@ class Ledger(Process):
         if self.parameters.get('amount2'):
             # a second port wired to the accumulator's node: one returned update carries two parts for it
             schema['acc2'] = {'_default': 0, '_emit': True}
+        if self.parameters.get('vec'):
+            # two array-valued accumulators declared with ONE default object
+            schema['vec'] = {'_default': VEC0, '_emit': True}
+            schema['vec2'] = {'_default': VEC0, '_emit': True}
         if self.parameters.get('pair'):
             # two dictionary ports wired to one store; their parts of the update are dictionaries the
             # process builds once and returns at every invocation
@@ -226,6 +234,10 @@ class Ledger(Process):
         upd = {'log': [tok], 'own': [tok], 'acc': amount, 'clock': timestep}
         if self.parameters.get('amount2'):
             upd['acc2'] = self.parameters['amount2']
+        if self.parameters.get('vec'):
+            import numpy as np
+            upd['vec'] = np.array([amount, 2 * amount])
+            upd['vec2'] = np.array([3 * amount, 3 * amount])
         if self.parameters.get('pair'):
             if not hasattr(self, '_pair'):
                 self._pair = ({'x': amount}, {'y': 10 * amount})
